@@ -33,6 +33,13 @@ pub struct Case {
     pub apps: Vec<App>,
     /// record levels (index into LEVELS)
     pub records: Vec<u8>,
+    /// how lists are handed to the builders (mix of `filter`/`filters`, `appender`/`appenders`)
+    #[serde(default)]
+    pub style: u64,
+    /// earlier on this thread, through another logger, the error handler panicked while reporting an appender
+    /// error (the caller caught it): errors of later records are still reported exactly once
+    #[serde(default)]
+    pub handler_panicked_before: bool,
 }
 
 #[derive(Default, Debug)]
@@ -113,14 +120,35 @@ pub fn check(case: &Case, obs: &mut Obs) -> CaseResult {
     let mut root = Root::builder();
     for (ai, a) in case.apps.iter().enumerate() {
         let mut ab = Appender::builder();
-        for (fi, f) in a.chain.iter().enumerate() {
-            ab = match f {
-                F::Threshold(i) => ab.filter(Box::new(TF { app: ai, idx: fi, inner: ThresholdFilter::new(LEVEL_FILTERS[*i as usize % 6]), logs: logs.clone() })),
-                other => ab.filter(Box::new(SF { app: ai, idx: fi, resp: other.clone(), logs: logs.clone() })),
-            };
+        let boxed: Vec<Box<dyn Filter>> = a
+            .chain
+            .iter()
+            .enumerate()
+            .map(|(fi, f)| -> Box<dyn Filter> {
+                match f {
+                    F::Threshold(i) => Box::new(TF { app: ai, idx: fi, inner: ThresholdFilter::new(LEVEL_FILTERS[*i as usize % 6]), logs: logs.clone() }),
+                    other => Box::new(SF { app: ai, idx: fi, resp: other.clone(), logs: logs.clone() }),
+                }
+            })
+            .collect();
+        for (mut run, single) in crate::glue::runs_by_style(boxed, case.style.rotate_left(ai as u32 * 7)) {
+            ab = if single { ab.filter(run.pop().unwrap()) } else { ab.filters(run) };
         }
         b = b.appender(ab.build(format!("app{}", ai), Box::new(FA { app: ai, fails: a.fails, logs: logs.clone() })));
-        root = root.appender(format!("app{}", ai));
+    }
+    for (run, single) in crate::glue::runs_by_style((0..case.apps.len()).map(|ai| format!("app{}", ai)).collect(), case.style.rotate_left(41)) {
+        root = if single { root.appender(run[0].clone()) } else { root.appenders(run) };
+    }
+    if case.handler_panicked_before {
+        let probe_logs = Arc::new(Mutex::new(Logs::default()));
+        let cfg = Config::builder()
+            .appender(Appender::builder().build("failing", Box::new(FA { app: 0, fails: true, logs: probe_logs.clone() })))
+            .build(Root::builder().appender("failing").build(log::LevelFilter::Trace))
+            .unwrap();
+        let other = log4rs::Logger::new_with_err_handler(cfg, Box::new(|_e: &anyhow::Error| panic!("error handler panics")));
+        let r = catch(|| with_record("t", log::Level::Error, "earlier", |r| other.log(r)));
+        ensure!(r.is_err(), "C03:error-not-reported", "a failing appender's error was not handed to the error handler (the handler, which panics, was never called)");
+        obs.class("error-handler-panicked-earlier-on-this-thread");
     }
     let config = b.build(root.build(LEVEL_FILTERS[case.root_level as usize % 6])).map_err(|e| Failure { sig: "C03:config".into(), msg: e.to_string() })?;
     let l2 = logs.clone();
@@ -230,8 +258,10 @@ pub fn strategy() -> impl Strategy<Value = Case> {
         prop_oneof![3 => Just(5u8), 1 => 0u8..6],
         prop::collection::vec((prop::collection::vec(filter_strategy(), 0..=5), prop::bool::weighted(0.35)).prop_map(|(chain, fails)| App { chain, fails }), 1..=4),
         prop::collection::vec(0u8..5, 1..=5),
+        any::<u64>(),
+        prop::bool::weighted(0.15),
     )
-        .prop_map(|(root_level, apps, records)| Case { root_level, apps, records })
+        .prop_map(|(root_level, apps, records, style, handler_panicked_before)| Case { root_level, apps, records, style, handler_panicked_before })
 }
 
 #[derive(Serialize, Deserialize, Debug, Clone)]
@@ -278,7 +308,7 @@ fn sweep(run: &Run) {
                     let studied = App { chain: chain.clone(), fails };
                     let companion = App { chain: vec![], fails: companion_fails };
                     let apps = if pos == 0 { vec![studied, companion] } else { vec![companion, studied] };
-                    ok &= run.eval_one("chains-exhaustive", &Case { root_level: 5, apps, records: vec![2] }, &check);
+                    ok &= run.eval_one("chains-exhaustive", &Case { root_level: 5, style: fnv64(format!("{:?}", apps).as_bytes()), apps, records: vec![2], handler_panicked_before: false }, &check);
                 }
             }
         }
